@@ -60,10 +60,10 @@ def exc_spec_name(e: dict[str, Any]) -> str:
 
 
 def monitor_case(case: dict[str, Any], impl: list[dict[str, Any]]) -> list[tuple[str, str]]:
-    from .gen_kernel import resolve_reraise
+    from .gen_kernel import resolve_reraise, undefer
 
     sh = Shadow()
-    ops = resolve_reraise(case["ops"])
+    ops = undefer(resolve_reraise(case["ops"]))
     for i, (op, r) in enumerate(zip(ops, impl)):
         try:
             step(sh, i, op, r)
@@ -115,6 +115,8 @@ def step(sh: Shadow, i: int, op: dict[str, Any], r: dict[str, Any]) -> None:
     t = op.get("t", 0)
     c = op.get("c")
     first = res[0] if res else ""
+    if k == "noop":
+        return
     for line in res:
         if line.startswith("task "):
             # a suspended lookup returned (or was cancelled): it is no longer outstanding anywhere
